@@ -118,6 +118,21 @@ CHECKS = {
              "to the real generator; its output is parsed and the declared qualified names compared with the expected "
              "set; samples are compiled by g++ and clang++.",
         design="5/C19"),
+    "C11": dict(
+        engine="tierb",
+        technique="self-checking generated programs (public API) run under ASan+UBSan: argument identity, address adjustment, ownership, copy/move counters",
+        text="Exploration: generated programs over parameter kind x inheritance shape x position x non-virtual category "
+             "x return kind; each definition body compares what it receives with what the caller recorded "
+             "(static_cast computed by the compiler, owner_before, copy / move counters); ASan / UBSan(vptr) watch the "
+             "casts in the thunks; reach is bounded by C++ compile time (programs, not registries).",
+        design="5/C11"),
+    "C20": dict(
+        engine="tierb",
+        technique="self-checking generated programs: the method's run-time catalog vs the generator's table, product order static_asserted",
+        text="Exploration: generated programs instantiate use_definitions over products of 1-1089 combinations with "
+             "several not_defined patterns; at run time the registered definitions are enumerated and compared with "
+             "the table, every combination is dispatched; sizes on both sides of the 512-element aggregate split.",
+        design="5/C20"),
     "C17": dict(
         technique="runtime monitor: update report vs. exhaustive oracle enumeration of argument tuples",
         text="Exploration: the report returned by the real update is compared with an exhaustive enumeration of all "
@@ -152,9 +167,11 @@ def main():
             "add_only": True,
         },
         "engines": [
-            {"name": "harness", "path": "harness/", "serves_properties": sorted(CHECKS),
+            {"name": "harness", "path": "harness/", "serves_properties": sorted(k for k in CHECKS if CHECKS[k].get("engine", "harness") == "harness"),
              "kind_free_text": "C++ runtime-monitoring harness (dynamic registries over the real yomm2 update/call path), "
                                "built per sanitizer flavour; driver bin/check"},
+            {"name": "tierb", "path": "lib/tierb.py", "serves_properties": ["C11", "C20"],
+             "kind_free_text": "Python generators of self-checking C++ programs using only the public API, compiled with clang/gcc sanitizers"},
         ],
         "checks": [],
         "not_applicable": [],
@@ -170,7 +187,7 @@ def main():
                 "thorough_cmd": "bin/check %s --tier thorough" % p,
                 "evidence_file": "evidence/%s.json" % p,
                 "replay_cmd_template": "bin/check %s --replay {path}" % p,
-                "engine": "harness",
+                "engine": c.get("engine", "harness"),
                 "level_claimed": {"category": c.get("category", "exploration"), "text": c["text"],
                                   "design_ref": "DESIGN.md section " + c["design"]},
                 "level_note": LEVEL_NOTE + c.get("note", ""),
